@@ -1,6 +1,7 @@
 (* Line-oriented driver around the engine model extracted from Coq (engine.ml).
    One case per line:
      <hex stream or -> <bufsize> <chunks> <eof|err> <reads>
+   or the same five fields twice (Reader reused through Reset, see handle below)
    chunks / reads: comma separated sizes, "AxB" = size A repeated B times ("-" = none).
    The chunk sizes cut the stream from the left; what is left over is one last chunk.
    Answer, one line:
@@ -50,22 +51,40 @@ let kind_s = function
   | RSrcErr -> "src" | RNoProgress -> "noprogress" | RBufferFull -> "bufferfull"
   | RPanic -> "panic" | RStuck -> "stuck"
 
+let add_items (b : Buffer.t) l =
+  List.iter (fun (bytes, r) ->
+    Buffer.add_char b ' ';
+    Buffer.add_string b (kind_s r);
+    Buffer.add_char b ':';
+    if bytes = [] then Buffer.add_char b '-'
+    else List.iter (fun x -> Buffer.add_string b (Printf.sprintf "%02x" (int_of_n x))) bytes) l
+
+let source hex bufsize chunks term =
+  (n_of_int (int_of_string bufsize), split_chunks (bytes_of_hex hex) (sizes chunks),
+   (if term = "eof" then TEOF else TErr))
+let read_list reads = List.rev (List.rev_map n_of_int (sizes reads))
+
+(* 5 fields: one Reader (erun_ext).  10 fields: two sources, Reset in between (erun2); every
+   Read of the first list is issued (sticky error), the second list stops at the first error.
+   Answer for 10 fields:  <consumed of source 2> <items of phase 1> | <items of phase 2> *)
 let handle (line : string) : string =
   match List.filter (fun s -> s <> "") (String.split_on_char ' ' line) with
   | [hex; bufsize; chunks; term; reads] ->
-    let data = bytes_of_hex hex in
-    let cs = split_chunks data (sizes chunks) in
-    let t = if term = "eof" then TEOF else TErr in
-    let rs = List.rev (List.rev_map n_of_int (sizes reads)) in
-    let (l, consumed) = erun_ext (n_of_int (int_of_string bufsize)) cs t rs in
+    let (bs, cs, t) = source hex bufsize chunks term in
+    let (l, consumed) = erun_ext bs cs t (read_list reads) in
     let b = Buffer.create 4096 in
     Buffer.add_string b (string_of_int (int_of_n consumed));
-    List.iter (fun (bytes, r) ->
-      Buffer.add_char b ' ';
-      Buffer.add_string b (kind_s r);
-      Buffer.add_char b ':';
-      if bytes = [] then Buffer.add_char b '-'
-      else List.iter (fun x -> Buffer.add_string b (Printf.sprintf "%02x" (int_of_n x))) bytes) l;
+    add_items b l;
+    Buffer.contents b
+  | [hex1; bufsize1; chunks1; term1; reads1; hex2; bufsize2; chunks2; term2; reads2] ->
+    let (bs1, cs1, t1) = source hex1 bufsize1 chunks1 term1 in
+    let (bs2, cs2, t2) = source hex2 bufsize2 chunks2 term2 in
+    let ((l1, l2), consumed) = erun2 bs1 cs1 t1 (read_list reads1) bs2 cs2 t2 (read_list reads2) in
+    let b = Buffer.create 4096 in
+    Buffer.add_string b (string_of_int (int_of_n consumed));
+    add_items b l1;
+    Buffer.add_string b " |";
+    add_items b l2;
     Buffer.contents b
   | _ -> "ERR bad request"
 
